@@ -1055,10 +1055,58 @@ def pyindex_validation_finish(rep, box):
 
 
 # ---------------------------------------------------------------- entry
+def used_parent_monitor(rep):
+    """A selection holds exactly the selected observations even when the parent has been ANALYSED before (mean, center,
+    covariance, Gram matrix, norm, noise variance ...): every statistic of the selection equals that of a dataset built
+    afresh from the same rows."""
+    import warnings
+    from harness import fd
+    rng = np.random.default_rng([C.seed(), 13, 7])
+    x = np.linspace(0, 1, 9)
+    x2 = np.array([0.0, 0.5, 2.0])
+    X1 = np.round(rng.normal(size=(6, 9)) * 16) / 16 + np.arange(6)[:, None]
+    X2 = np.round(rng.normal(size=(6, 9, 3)) * 16) / 16 + np.arange(6)[:, None, None]
+    stats = [("mean", lambda d: d.mean().values), ("center", lambda d: d.center().values), ("norm", lambda d: d.norm()),
+             ("noise_variance", lambda d: d.noise_variance(order=2)), ("inner_product", lambda d: d.inner_product(noise_variance=0)),
+             ("covariance", lambda d: d.covariance().values)]
+    sels = [("int", 2), ("negative int", -1), ("slice", slice(1, 4)), ("stepped slice", slice(0, 6, 2)),
+            ("index array", np.array([4, 0, 3])), ("one-element array", np.array([5]))]
+    for dim, grids, X in ((1, x, X1), (2, [x, x2], X2)):
+        parent = fd.dense(grids, X.copy())
+        with warnings.catch_warnings():
+            warnings.simplefilter("ignore")
+            for name, f in stats:                  # use the parent first
+                if dim == 2 and name == "covariance":
+                    continue
+                try:
+                    f(parent)
+                except Exception:  # noqa: BLE001
+                    pass
+            subsets = [(nm, parent[ix], np.atleast_1d(np.arange(6)[ix])) for nm, ix in sels]
+            subsets += [(f"iteration #{k}", obs, np.array([k])) for k, obs in enumerate(parent) if k in (0, 3)]
+            for nm, sub, rows in subsets:
+                twin = fd.dense(grids, X[rows].copy())
+                for name, f in stats:
+                    if dim == 2 and name == "covariance":
+                        continue
+                    try:
+                        a_, b_ = np.asarray(f(sub), float), np.asarray(f(twin), float)
+                    except Exception:  # noqa: BLE001
+                        continue
+                    rep.case(("used-parent", dim, nm, name), kind="history/analysed-parent")
+                    if a_.shape != b_.shape or not np.allclose(a_, b_, rtol=1e-10, atol=1e-12, equal_nan=True):
+                        rep.violation(f"dense {dim}-D: after the parent dataset has been analysed, {name}() of the selection [{nm}] differs "
+                                      f"from {name}() of a dataset built from the same rows — the selection does not hold exactly the "
+                                      f"selected observations (state inherited from the parent)",
+                                      {"dim": dim, "selection": nm, "rows": rows.tolist(), "statistic": name, "X": C.hexf(X)})
+                        break
+
+
 def run(rep, props, replay=None):
     quick = C.tier() == "quick"
     if replay is not None:
         return replay_case(rep, replay, quick)
+    used_parent_monitor(rep)
     import time
     t0 = time.time()
     box = pyindex_validation_start()
